@@ -11,7 +11,7 @@ CONSTANTS
   ScaleKs <- K_one
   Kinds <- Kinds_all
   PerturbNames <- N_base
-  RegPool <- Regs2
+  RegPool <- Regs2s
   Keys = {"energy"}
   HelperNames = {"linspace"}
   Plan <- Plan_hist3t
